@@ -28,6 +28,8 @@ def run(ctx: Ctx) -> None:
     _memo.rule_memo_sound(ctx, ['graphiq/backends/stabilizer/functions/clifford.py', 'graphiq/backends/stabilizer/functions/transformation.py', 'graphiq/backends/stabilizer/state.py', 'graphiq/backends/stabilizer/clifford_tableau.py', 'graphiq/backends/stabilizer/tableau.py'])
     _memo.rule_falsy_zero(ctx, ['graphiq/backends/stabilizer/functions/clifford.py', 'graphiq/backends/stabilizer/functions/transformation.py', 'graphiq/backends/stabilizer/state.py', 'graphiq/backends/stabilizer/clifford_tableau.py', 'graphiq/backends/stabilizer/tableau.py'])
     _memo.rule_arg_names(ctx, ['graphiq/backends/stabilizer/functions/clifford.py', 'graphiq/backends/stabilizer/functions/transformation.py', 'graphiq/backends/stabilizer/state.py', 'graphiq/backends/stabilizer/clifford_tableau.py', 'graphiq/backends/stabilizer/tableau.py'])
+    _memo.rule_fixed_width(ctx, ['graphiq/backends/stabilizer/functions/clifford.py', 'graphiq/backends/stabilizer/functions/transformation.py', 'graphiq/backends/stabilizer/state.py', 'graphiq/backends/stabilizer/clifford_tableau.py', 'graphiq/backends/stabilizer/tableau.py'])
+    _memo.rule_paste_incomplete(ctx, ['graphiq/backends/stabilizer/functions/clifford.py', 'graphiq/backends/stabilizer/functions/transformation.py', 'graphiq/backends/stabilizer/state.py', 'graphiq/backends/stabilizer/clifford_tableau.py', 'graphiq/backends/stabilizer/tableau.py'])
     tableau.rule_own_tableau(ctx)
     tableau.rule_rowcol(ctx, [CLIFF, gatesum.TRANSFORM, STABF])
     tableau.rule_bounds(ctx, [CLIFF, STABF])
@@ -37,6 +39,8 @@ def run(ctx: Ctx) -> None:
     tableau.rule_measure_rowset(ctx)
     tableau.rule_outcome_used(ctx)
     gatesum.rule_derived_gates(ctx)
+    from .c11 import rule_reverse_table
+    rule_reverse_table(ctx)
     rule_wrappers(ctx)
     shapes.rule_removal_order(ctx)
     from ..rules import tables as _tables
@@ -65,6 +69,9 @@ def rule_wrappers(ctx: Ctx) -> None:
 
 
 KNOCKOUTS = [
+    Knockout("reset-z-overwrites-sign-on-random-outcome", CLIFF, sub_once("    tableau, outcome, _ = z_measurement_gate(\n        tableau, qubit_position, measurement_determinism\n    )\n", "    tableau, outcome, probabilistic = z_measurement_gate(\n        tableau, qubit_position, measurement_determinism\n    )\n    if probabilistic:\n        tableau.phase[probabilistic] = intended_state\n        return tableau\n"), "measure.outcome-used", "a path ignores"),
+    Knockout("swap-gate-moves-sign-rows", CLIFF, sub_once("    # the phase vectors belong to the generators (rows), which a qubit swap does not permute\n", "    rows1 = [qubit1, qubit1 + n_qubits]\n    rows2 = [qubit2, qubit2 + n_qubits]\n    for vector in (tableau.phase, tableau.iphase):\n        vector[rows1 + rows2] = vector[rows2 + rows1]\n"), "num.rowcol", "swap_gate"),
+    Knockout("run-circuit-pdag-not-inverted", TRF, sub_once("        elif ops[0] == \"P_dag\":\n            if reverse:\n                tableau = phase_gate(tableau, ops[1])", "        elif ops[0] == \"P_dag\":\n            if reverse:\n                tableau = phase_dagger_gate(tableau, ops[1])"), "reverse.table", "P_dag"),
     Knockout("prim-h-phase-xx", TRF, sub_nth("        tableau.table, tableau.table, qubit_position, n_qubits + qubit_position\n", "        tableau.table, tableau.table, qubit_position, qubit_position\n", 0), "prim.formula", "hadamard_gate"),
     Knockout("prim-p-columns-swapped", TRF, sub_once("    tableau.table = add_columns(\n        tableau.table, qubit_position, n_qubits + qubit_position\n    )", "    tableau.table = add_columns(\n        tableau.table, n_qubits + qubit_position, qubit_position\n    )"), "prim.formula", "phase_gate"),
     Knockout("prim-cnot-sign-term", TRF, sub_once("(x_target ^ z_ctrl ^ 1)", "(x_target ^ z_ctrl)"), "prim.formula", "cnot_gate"),
